@@ -44,12 +44,16 @@ func init() {
 		// ---- choose form rows
 		var rows []*formRow
 		var replayed []*c05Case
+		var replayedClass []c05ClassLine
 		if *f.replay != "" {
 			lines, err := readLines(*f.replay)
 			if err != nil {
 				return err
 			}
 			if replayed, err = c05Replay(db, g, lines); err != nil {
+				return err
+			}
+			if replayedClass, err = c05ReplayClass(db, lines); err != nil {
 				return err
 			}
 		} else if *f.tier == "thorough" {
@@ -90,6 +94,7 @@ func init() {
 		// ---- build cases
 		var cases []*c05Case
 		var panics []*c05Case
+		var classLines []c05ClassLine // `opclass` requests of the derived near-miss stream (and of a replay)
 		add := func(c *c05Case) {
 			if c == nil {
 				return
@@ -164,6 +169,55 @@ func init() {
 				}
 				g.target = ""
 			}
+			// ---- systematically derived near misses: for EVERY operand type every one-attribute change of a member of
+			// the class (c05derive.go), `reps` times on rows drawn from the forms that have an operand of that type
+			typeCode := map[string]uint8{}
+			for code, name := range db.oprndName {
+				typeCode[name] = code
+			}
+			reps := 3
+			if *f.tier == "thorough" {
+				reps = 12
+			}
+			var derivable []string
+			for _, t := range tnames {
+				if _, ok := typeCode[t]; ok && c05Family(t) != "" {
+					derivable = append(derivable, t)
+				} else {
+					g.stats["derived_type_without_catalogue"]++
+				}
+			}
+			seenLine := map[string]bool{}
+			for _, t := range derivable {
+				for j := 0; j < reps; j++ {
+					cs, ls := g.derived(db, &db.rows[pick(r, byType[t])], t, typeCode)
+					for _, c := range cs {
+						add(c)
+					}
+					for _, l := range ls {
+						if !seenLine[l.req] {
+							seenLine[l.req] = true
+							classLines = append(classLines, l)
+						}
+					}
+				}
+			}
+			total, tried, triedAsm := 0, 0, 0
+			for _, t := range derivable {
+				for _, k := range c05DeriveKinds(t) {
+					total++
+					if g.stats["derivedpair:"+t+":"+k] > 0 {
+						tried++
+					}
+					if c05DeriveRoute(t, k) == "asm" && g.stats["derivedasm:"+t+":"+k] > 0 {
+						triedAsm++
+					}
+				}
+			}
+			g.stats["derived_types"] = len(derivable)
+			g.stats["derived_pairs_total"] = total
+			g.stats["derived_pairs_tried"] = tried
+			g.stats["derived_pairs_through_ctor"] = triedAsm
 		}
 		for _, c := range replayed {
 			add(c)
@@ -231,7 +285,14 @@ func init() {
 			df.Close()
 		}
 
+		for _, l := range replayedClass {
+			classLines = append(classLines, l)
+		}
+		for _, l := range classLines {
+			o.emit(l.req, l.resp)
+		}
 		st := c05Emit(o, db, cases, panics)
+		st["opclass_lines"] = len(classLines)
 		for k, v := range g.stats {
 			st[k] = v
 		}
